@@ -419,3 +419,243 @@ Proof.
   - vm_compute. reflexivity.
   - unfold loadable. vm_compute. repeat split; eauto.
 Qed.
+
+(* ================= the file deployment: atomic_write under a polling reloader ================= *)
+(* Composition with C16 (theories/ReloadFile.v).  W := FileStore.fsys (the directory), St :=
+   FileStore's FilePolicySource state (_cached_stat_sig, _cached_sha); [RF.fs_source] is
+   FileStore's etag()/load() as a source of this model; the bridge between the vocabularies is
+   explicit: [h] = SHA-256 of a text as the tag model names it, [code] = the reloader model's name
+   (a nat) of a parsed policy, parse = FileStore's parse_file (by extension, then the optional
+   schema validation).  [FS.atomic_write fs0 path new now cands sc] with its fault script [sc]
+   (every step Done / Fail / Crash, the write piecewise) yields the directories after its completed
+   steps, [RF.aw_states]; a schedule [its] interleaves  RF.IWrite  (the writer's next step; nothing
+   once it has finished or died) with the spawning and the atomic steps of any number of checks;
+   [RF.run_sys] runs it with Reload.v's [run]. *)
+From Rbacx Require Value FileStore FileStoreProofs ReloadFile.
+Module FS := FileStore.
+Module FSP := FileStoreProofs.
+Module RF := ReloadFile.
+
+(* For every directory in which the path holds a complete file [fold], every fault script (crash
+   point, partial write) of  atomic_write(path, new) , every schedule of checks - plain or forced,
+   overlapping - among the writer's steps and after them: the path shows the old or the new file;
+   the engine enforces its initial policy, parse(old) or parse(new); every document load() ever
+   returned and every document a check in flight is about to install is parse(old) or parse(new)
+   (never the parse of a prefix, although the prefix is on the disk and may be valid: example
+   below); and set_policy ran once per check that returned True - a failed or invalid load leaves
+   the previous policy active. *)
+Theorem c10_reload_never_sees_torn_policy :
+  forall (h : FS.bytes -> bytes) (json_loads yaml_safe_load : FS.bytes -> Value.res Value.value)
+         (schema_ok : Value.value -> bool) (code : Value.value -> doc) (fcfg : FS.config) (c : cfg)
+         (fs0 : FS.fsys) (fold : FS.file) (new : FS.bytes) (now : BinNums.Z)
+         (cands : list String.string) (sc : FS.script),
+    FSP.not_candidate (FS.c_path fcfg) cands ->
+    FS.lookup (FS.c_path fcfg) fs0 = Some fold ->
+    forall (s0 : sys FS.fsys (FS.source bytes)) (its : list RF.item),
+    wld s0 = fs0 -> loaded s0 = [] ->
+    let path := FS.c_path fcfg in
+    let fnew := FS.mkFile new now in
+    let parse := RF.parse_at json_loads yaml_safe_load schema_ok fcfg in
+    let whole d := exists v, (parse (Some fold) = Value.Ok v \/ parse (Some fnew) = Value.Ok v) /\ d = code v in
+    let cf := RF.run_sys h json_loads yaml_safe_load schema_ok code fcfg c its
+                (RF.aw_states (FS.atomic_write fs0 path new now cands sc)) {| cs := s0; thr := [] |} in
+    (FS.lookup path (wld (cs cf)) = Some fold \/ FS.lookup path (wld (cs cf)) = Some fnew)
+    /\ (policy (gd (cs cf)) = policy (gd s0)
+        \/ (exists v, parse (Some fold) = Value.Ok v /\ policy (gd (cs cf)) = code v)
+        \/ (exists v, parse (Some fnew) = Value.Ok v /\ policy (gd (cs cf)) = code v))
+    /\ Forall whole (loaded (cs cf))
+    /\ Forall (fun p => match p with PApply _ _ d => whole d | _ => True end) (thr cf)
+    /\ sets (gd (cs cf)) = (sets (gd s0) + count_true (thr cf))%nat.
+Proof. exact RF.reload_never_sees_torn_policy. Qed.
+Print Assumptions c10_reload_never_sees_torn_policy.
+
+(* The fail-safe clause at any point of the write (mid-write, after a crash, file missing): if what
+   stands at the path when load() runs is missing or does not parse / validate, the check returns
+   False and guard, log and stored tag are as before. *)
+Theorem c10_reload_failed_load_keeps_policy :
+  forall (h : FS.bytes -> bytes) (json_loads yaml_safe_load : FS.bytes -> Value.res Value.value)
+         (schema_ok : Value.value -> bool) (code : Value.value -> doc) (fcfg : FS.config) (c : cfg)
+         force now u (mid : FS.fsys -> FS.fsys) (s : sys FS.fsys (FS.source bytes)),
+    (forall v, RF.parse_at json_loads yaml_safe_load schema_ok fcfg
+                 (FS.lookup (FS.c_path fcfg) (mid (wld s))) <> Value.Ok v) ->
+    let r := run_check c (RF.fs_source h json_loads yaml_safe_load schema_ok code fcfg) force now u mid s in
+    snd r = PDone false /\ gd (fst r) = gd s /\ loaded (fst r) = loaded s
+    /\ last_etag (rl (fst r)) = last_etag (rl s).
+Proof. exact RF.reload_failed_load_keeps_policy. Qed.
+Print Assumptions c10_reload_failed_load_keeps_policy.
+
+(* atomic_write returned (no crash, no exception) and [new] parses (and validates) to [vnew];
+   [s] is the system at any later moment, the directory as the write left it.  Hypotheses on the
+   tag, as c10_converges_generic has them: the (size, mtime_ns)-keyed hash cache is coherent with
+   the new file (FileStoreProofs.coherent: c10_file_cache_coherent_after_write says when) and the
+   stored tag is not already the new file's (c10_file_tag_differs: a different content hash
+   suffices).  Then the next check that is due, or a forced one, returns True and installs
+   parse(new); every later unforced check returns False, calls no load() and leaves the guard. *)
+Theorem c10_reload_converges_after_atomic_write :
+  forall (h : FS.bytes -> bytes) (json_loads yaml_safe_load : FS.bytes -> Value.res Value.value)
+         (schema_ok : Value.value -> bool) (code : Value.value -> doc) (fcfg : FS.config) (c : cfg)
+         (fs0 : FS.fsys) (new : FS.bytes) (now : BinNums.Z) (cands : list String.string) (sc : FS.script),
+    FSP.not_candidate (FS.c_path fcfg) cands ->
+    forall (vnew : Value.value) (s : sys FS.fsys (FS.source bytes)) force now1 u1,
+    let r := FS.atomic_write fs0 (FS.c_path fcfg) new now cands sc in
+    let fnew := FS.mkFile new now in
+    let src := RF.fs_source h json_loads yaml_safe_load schema_ok code fcfg in
+    FS.r_out r = FS.Returned ->
+    wld s = FS.r_fs r ->
+    RF.parse_at json_loads yaml_safe_load schema_ok fcfg (Some fnew) = Value.Ok vnew ->
+    FSP.coherent bytes h fcfg (sst s) (FS.r_fs r) ->
+    last_etag (rl s) <> Some (RF.ftag h fcfg fnew) ->
+    force = true \/ suppress_until (rl s) <= now1 ->
+    let r1 := run_check c src force now1 u1 idw s in
+    snd r1 = PDone true
+    /\ gd (fst r1) = set_policy (code vnew) (gd s)
+    /\ last_etag (rl (fst r1)) = Some (RF.ftag h fcfg fnew)
+    /\ last_error (rl (fst r1)) = false
+    /\ forall its, only_checks its ->
+         let s3 := run_seq c src its (fst r1) in
+         policy (gd s3) = code vnew /\ wld s3 = FS.r_fs r /\
+         forall now' u',
+           let r4 := run_check c src false now' u' idw s3 in
+           snd r4 = PDone false /\ gd (fst r4) = gd s3 /\ n_load (fst r4) = n_load s3.
+Proof. exact RF.reload_converges_after_atomic_write. Qed.
+Print Assumptions c10_reload_converges_after_atomic_write.
+
+(* The whole story in one statement.  Start: the path holds [fold]; no check in flight; the hash
+   cache is empty or stems from the old or new file (RF.cache_ok); the stored tag is not the new
+   file's unless the guard already enforces parse(new) (coh - C10's proviso; holds when the
+   reloader was primed on, or last loaded, the old file).  The tag separates the two files
+   (ftag fold <> ftag fnew) and a file with old's (size, mtime_ns) has old's hash.  ANY schedule
+   of plain / forced / overlapping checks with the writer's steps in which the writer finishes and
+   returns; then one more check, due or forced: the engine enforces parse(new), the stored tag is
+   the new file's, and every later unforced check returns False without loading.  (Checks still in
+   flight at the end of the schedule take no further step, as in c10_converges.) *)
+Theorem c10_reload_converges_through_atomic_write :
+  forall (h : FS.bytes -> bytes) (json_loads yaml_safe_load : FS.bytes -> Value.res Value.value)
+         (schema_ok : Value.value -> bool) (code : Value.value -> doc) (fcfg : FS.config) (c : cfg)
+         (fs0 : FS.fsys) (fold : FS.file) (new : FS.bytes) (now : BinNums.Z)
+         (cands : list String.string) (sc : FS.script),
+    FSP.not_candidate (FS.c_path fcfg) cands ->
+    FS.lookup (FS.c_path fcfg) fs0 = Some fold ->
+    forall vnew : Value.value,
+    let r := FS.atomic_write fs0 (FS.c_path fcfg) new now cands sc in
+    let fnew := FS.mkFile new now in
+    let src := RF.fs_source h json_loads yaml_safe_load schema_ok code fcfg in
+    RF.parse_at json_loads yaml_safe_load schema_ok fcfg (Some fnew) = Value.Ok vnew ->
+    RF.ftag h fcfg fold <> RF.ftag h fcfg fnew ->
+    (FSP.sig_of fold = FSP.sig_of fnew -> h (FS.f_data fold) = h new) ->
+    forall (s0 : sys FS.fsys (FS.source bytes)) (its : list RF.item) force now1 u1,
+    FS.r_out r = FS.Returned ->
+    wld s0 = fs0 -> RF.cache_ok h fold new now (sst s0) ->
+    coh (code vnew) (Some (RF.ftag h fcfg fnew)) s0 ->
+    RF.pending its (RF.aw_states r) = [] ->
+    let s := cs (RF.run_sys h json_loads yaml_safe_load schema_ok code fcfg c its (RF.aw_states r)
+                   {| cs := s0; thr := [] |}) in
+    force = true \/ suppress_until (rl s) <= now1 ->
+    let s1 := fst (run_check c src force now1 u1 idw s) in
+    wld s = FS.r_fs r
+    /\ policy (gd s1) = code vnew /\ last_etag (rl s1) = Some (RF.ftag h fcfg fnew)
+    /\ forall its', only_checks its' ->
+         let s3 := run_seq c src its' s1 in
+         policy (gd s3) = code vnew /\ wld s3 = FS.r_fs r /\
+         forall now' u',
+           let r4 := run_check c src false now' u' idw s3 in
+           snd r4 = PDone false /\ gd (fst r4) = gd s3 /\ n_load (fst r4) = n_load s3.
+Proof. exact RF.reload_converges_through_atomic_write. Qed.
+Print Assumptions c10_reload_converges_through_atomic_write.
+
+(* the hypotheses on the tag, from what an operator can see: a different content hash (or, with
+   include_mtime_in_etag, a different mtime) gives a different tag ... *)
+Theorem c10_file_tag_differs :
+  forall (h : FS.bytes -> bytes) (fcfg : FS.config) (fold : FS.file) (new : FS.bytes) (now : BinNums.Z),
+    h (FS.f_data fold) <> h new -> RF.ftag h fcfg fold <> RF.ftag h fcfg (FS.mkFile new now).
+Proof. exact RF.ftag_differs. Qed.
+Print Assumptions c10_file_tag_differs.
+Theorem c10_file_tag_differs_by_mtime :
+  forall (h : FS.bytes -> bytes) (fcfg : FS.config) (fold : FS.file) (new : FS.bytes) (now : BinNums.Z),
+    FS.c_incl_mtime fcfg = true -> FS.f_mtime fold <> now ->
+    RF.ftag h fcfg fold <> RF.ftag h fcfg (FS.mkFile new now).
+Proof. exact RF.ftag_differs_mtime. Qed.
+Print Assumptions c10_file_tag_differs_by_mtime.
+
+(* ... and the stat-signature cache is coherent after the write when it is empty or was filled from
+   the old file and the new file's (size, mtime_ns) differs from the old one's (or the hash is the
+   same): atomic_write stamps the time of its last write, so this fails only for a same-length
+   rewrite within one mtime tick (then c16_stale_without_sig_change applies). *)
+Theorem c10_file_cache_coherent_after_write :
+  forall (h : FS.bytes -> bytes) (fcfg : FS.config) (fs0 : FS.fsys) (fold : FS.file) (new : FS.bytes)
+         (now : BinNums.Z) (cands : list String.string) (sc : FS.script),
+    FSP.not_candidate (FS.c_path fcfg) cands ->
+    forall st : FS.source bytes,
+    let r := FS.atomic_write fs0 (FS.c_path fcfg) new now cands sc in
+    FS.r_out r = FS.Returned ->
+    RF.cache_of_old h fold st ->
+    (FSP.sig_of fold = FSP.sig_of (FS.mkFile new now) -> h (FS.f_data fold) = h new) ->
+    FSP.coherent bytes h fcfg st (FS.r_fs r).
+Proof. exact RF.coherent_from_old. Qed.
+Print Assumptions c10_file_cache_coherent_after_write.
+
+(* the combined world is faithful to the writer: after a schedule the directory is the one after
+   the writer's last performed step, and when all steps were performed it is atomic_write's result *)
+Theorem c10_file_world_follows_writer :
+  forall (h : FS.bytes -> bytes) (json_loads yaml_safe_load : FS.bytes -> Value.res Value.value)
+         (schema_ok : Value.value -> bool) (code : Value.value -> doc) (fcfg : FS.config) (c : cfg)
+         (its : list RF.item) (states : list FS.fsys) (cf : conf FS.fsys (FS.source bytes)),
+    wld (cs (RF.run_sys h json_loads yaml_safe_load schema_ok code fcfg c its states cf)) =
+    last (firstn (List.length states - List.length (RF.pending its states))%nat states) (wld (cs cf)).
+Proof. exact RF.run_sys_world. Qed.
+Print Assumptions c10_file_world_follows_writer.
+
+Import Coq.Strings.String.   (* from here on only: string literals in the examples *)
+
+(* non-vacuity (vm_compute in ReloadFile.v): "policy.yaml" holds "v: 1", the operator writes "v: 22";
+   the prefix "v: 2" is itself a valid document.  (a) the writer is killed when "v: 2" has reached the
+   temp file; a forced and an unforced check run among its steps: the partial text is on the disk,
+   would parse, and the engine stays on parse(old). *)
+Example c10_example_write_crashes :
+  let r := RF.Example.ex_write RF.Example.sc_crash in
+  let cf := RF.Example.ex_run RF.Example.its_crash (RF.aw_states r) {| cs := RF.Example.s0; thr := [] |} in
+  FS.r_out r = FS.Crashed
+  /\ FS.lookup ".rbacx.tmp.k3"%string (wld (cs cf)) = Some (FS.mkFile "v: 2"%string 9)
+  /\ RF.Example.ex_parse (Some (FS.mkFile "v: 2"%string 9)) = Value.Ok (RF.Example.pol 2)
+  /\ FS.lookup "policy.yaml"%string (wld (cs cf)) = Some (FS.mkFile "v: 1"%string 5)
+  /\ thr cf = [PDone true; PDone false] /\ policy (gd (cs cf)) = 1%nat /\ sets (gd (cs cf)) = 1%nat.
+Proof. vm_compute. repeat split. Qed.
+
+(* (b) the write completes; a forced check straddles the rename (old tag stored with the new policy);
+   the hypotheses of c10_reload_converges_through_atomic_write hold; the next due check returns True
+   with the new tag, the one after it False without loading *)
+Example c10_example_write_completes :
+  let r := RF.Example.ex_write RF.Example.sc_done in
+  let cf := RF.Example.ex_run RF.Example.its_done (RF.aw_states r) {| cs := RF.Example.s0; thr := [] |} in
+  let r1 := run_check RF.Example.ex_c RF.Example.ex_src false 20 0 idw (cs cf) in
+  let r2 := run_check RF.Example.ex_c RF.Example.ex_src false 30 0 idw (fst r1) in
+  FS.r_out r = FS.Returned /\ RF.pending RF.Example.its_done (RF.aw_states r) = []
+  /\ thr cf = [PDone false; PDone true] /\ policy (gd (cs cf)) = 22%nat
+  /\ last_etag (rl (cs cf)) = Some (TSha (RF.Example.ex_h "v: 1"%string))
+  /\ snd r1 = PDone true /\ policy (gd (fst r1)) = 22%nat
+  /\ last_etag (rl (fst r1)) = Some (TSha (RF.Example.ex_h "v: 22"%string))
+  /\ snd r2 = PDone false /\ n_load (fst r2) = n_load (fst r1).
+Proof. vm_compute. repeat split. Qed.
+Example c10_example_write_hypotheses :
+  let fnew := FS.mkFile "v: 22"%string 9 in
+  FSP.not_candidate "policy.yaml"%string RF.Example.cands
+  /\ RF.Example.ex_parse (Some fnew) = Value.Ok (RF.Example.pol 22)
+  /\ RF.ftag RF.Example.ex_h RF.Example.ex_fcfg RF.Example.fold <> RF.ftag RF.Example.ex_h RF.Example.ex_fcfg fnew
+  /\ (FSP.sig_of RF.Example.fold = FSP.sig_of fnew -> RF.Example.ex_h (FS.f_data RF.Example.fold) = RF.Example.ex_h "v: 22"%string)
+  /\ RF.cache_ok RF.Example.ex_h RF.Example.fold "v: 22"%string 9 (sst RF.Example.s0)
+  /\ coh (RF.Example.ex_code (RF.Example.pol 22)) (Some (RF.ftag RF.Example.ex_h RF.Example.ex_fcfg fnew)) RF.Example.s0.
+Proof.
+  split; [exact RF.Example.ex_not_candidate|].
+  destruct RF.Example.ex_hypotheses as (A & B & C & D & E & _). auto.
+Qed.
+
+(* (c) what atomic_write buys: the same rewrite done in place lets a check install the policy parsed
+   from the prefix - neither the initial policy, nor parse(old), nor parse(new) *)
+Example c10_example_in_place_write_tears :
+  let cf := run RF.Example.ex_c RF.Example.ex_src
+              [LWorld (FS.apply_wop "policy.yaml"%string (FS.WSet "v: 2"%string 9));
+               LSpawn false; LStep 0%nat 10 0; LStep 0%nat 10 0; LStep 0%nat 10 0; LStep 0%nat 10 0;
+               LWorld (FS.apply_wop "policy.yaml"%string (FS.WSet "v: 22"%string 9))]
+              {| cs := RF.Example.s0; thr := [] |} in
+  thr cf = [PDone true] /\ policy (gd (cs cf)) = 2%nat.
+Proof. vm_compute. repeat split. Qed.
